@@ -216,7 +216,7 @@ func c13Body(c *ev.Ctx) {
 		}
 		var mu sync.Mutex
 		nfail := 0
-		e := &vsched.Explorer{Bound: jb.bound, Fine: true, UseKeys: true, MaxSteps: 2000000, Workers: workers(), Deadline: c.Deadline, NewRun: c13Run(c, &sc), AfterRun: vhttp.Uninstall,
+		e := &vsched.Explorer{Bound: jb.bound, Fine: true, UseKeys: false, MaxSteps: 2000000, Workers: workers(), Deadline: c.Deadline, NewRun: c13Run(c, &sc), AfterRun: vhttp.Uninstall,
 			// alternatives only between connection (handler) threads: the interleavings of
 			// connection set-up, clients and server start-up/shut-down belong to C14
 			Filter: func(p *vsched.Point, alt int) bool {
@@ -266,7 +266,7 @@ func c13Body(c *ev.Ctx) {
 	c.Set("scenarios", per)
 	c.Set("distinct_outcomes", int64(len(outcomes)))
 	c.Set("exhaustive", allDone)
-	c.Set("rule", "2 (3) client threads each issuing one POST to the real instrumented handler path (server.go, marshal.go, *_proving_system.go) with a shared real proving system at (1,1); every interleaving of statement-level steps with <=1 preemption (2 thorough) from the moment the clients start, state-key pruned; oracle per execution: each response equals the class the request gets on its own, each 200 body verifies for its own input hash and not for the other request's; gnark proving runs as an atomic step; plus a separate free-running -race pass on real net/http (a sample, not exhaustive)")
+	c.Set("rule", "2 (3) client threads each issuing one POST to the real instrumented handler path (server.go, marshal.go, *_proving_system.go) with a shared real proving system at (1,1); every interleaving of statement-level steps with <=1 preemption (2 thorough) from the moment the clients start, oracle per execution: each response equals the class the request gets on its own, each 200 body verifies for its own input hash and not for the other request's; gnark proving runs as an atomic step; plus a separate free-running -race pass on real net/http (a sample, not exhaustive)")
 	c.Assume("interleavings inside gnark/promhttp/encoding-json are not explored (atomic steps); memory-model effects only through the separate -race sample")
 }
 
